@@ -789,6 +789,11 @@ class Machine:
             cands = [g for (sh, sf, g) in impls if sh == th]
             if not args or name in ('from', 'default', 'from_str', 'try_from', 'from_bytes'):
                 cands = [g for (sh, sf, g) in impls if sh == ck.selfty]
+            if not cands:
+                # blanket impl `impl<I> Trait for I`
+                bl = [g for (sh, sf, g) in impls if sh in (getattr(g, 'impl_generics', None) or ())]
+                if len(bl) == 1:
+                    cands = bl
             if len(cands) > 1:
                 cands = self.pick_impl(cands, ck, selfv)
             if len(cands) >= 1:
